@@ -159,7 +159,8 @@ impl InitHeader {
         let data = if payload_len > Self::MAX_PAYLOAD_SIZE {
             data
         } else {
-            &data[..payload_len]
+            // a packet shorter than the payload it declares is malformed
+            data.get(..payload_len).ok_or(())?
         };
         Ok((
             Self {
@@ -423,13 +424,27 @@ impl Message {
         }
 
         if header.seq == self.sequence {
-            self.sequence += 1;
-            let remaining_bytes = self.payload_len - self.payload.len();
+            // Malformed packets (more data than announced, a final packet shorter than what is
+            // missing, more continuation packets than a sequence number can count) are rejected
+            // like out of sequence packets, without touching the message.
+            let next_sequence = self
+                .sequence
+                .checked_add(1)
+                .ok_or(ExtensionError::OutOfSequence)?;
+            let remaining_bytes = self
+                .payload_len
+                .checked_sub(self.payload.len())
+                .ok_or(ExtensionError::OutOfSequence)?;
             const MAX_CONT_PACKET_LEN: usize = MAX_PACKET_SIZE - ContHeader::HEADER_SIZE;
             if remaining_bytes <= MAX_CONT_PACKET_LEN {
-                self.payload.extend_from_slice(&data[..remaining_bytes]);
+                let data = data
+                    .get(..remaining_bytes)
+                    .ok_or(ExtensionError::OutOfSequence)?;
+                self.sequence = next_sequence;
+                self.payload.extend_from_slice(data);
                 Ok(true)
             } else {
+                self.sequence = next_sequence;
                 self.payload.extend_from_slice(data);
                 Ok(false)
             }
